@@ -79,16 +79,16 @@ fn conditional_select_seed(select: Choice, seeds: &[Seed16; 2]) -> (r: Seed16) e
 #[verifier::external_body]
 pub struct XofMode { _m: u8 }
 pub struct ValueParam { pub p: u8 }
-pub uninterp spec fn ext_s(seed: Seed16, i: int) -> Seed16;
-pub uninterp spec fn ext_t(seed: Seed16, i: int) -> bool;
-pub uninterp spec fn conv_k(seed: Seed16) -> Seed16;
-pub uninterp spec fn conv_v(seed: Seed16) -> Fe;
+pub uninterp spec fn ext_s(xm: XofMode, seed: Seed16, i: int) -> Seed16;
+pub uninterp spec fn ext_t(xm: XofMode, seed: Seed16, i: int) -> bool;
+pub uninterp spec fn conv_k(cm: XofMode, vp: ValueParam, seed: Seed16) -> Seed16;
+pub uninterp spec fn conv_v(cm: XofMode, vp: ValueParam, seed: Seed16) -> Fe;
 #[verifier::external_body]
 fn extend(seed: &Seed16, xof_mode: &XofMode) -> (r: ([Seed16; 2], [Choice; 2]))
-    ensures r.0[0] == ext_s(*seed, 0), r.0[1] == ext_s(*seed, 1), r.1[0].0 == ext_t(*seed, 0), r.1[1].0 == ext_t(*seed, 1)
+    ensures r.0[0] == ext_s(*xof_mode, *seed, 0), r.0[1] == ext_s(*xof_mode, *seed, 1), r.1[0].0 == ext_t(*xof_mode, *seed, 0), r.1[1].0 == ext_t(*xof_mode, *seed, 1)
 { unimplemented!() }
 #[verifier::external_body]
-fn convert(seed: &Seed16, xof_mode: &XofMode, parameter: &ValueParam) -> (r: (Seed16, Fe)) ensures r.0 == conv_k(*seed), r.1 == conv_v(*seed) { unimplemented!() }
+fn convert(seed: &Seed16, xof_mode: &XofMode, parameter: &ValueParam) -> (r: (Seed16, Fe)) ensures r.0 == conv_k(*xof_mode, *parameter, *seed), r.1 == conv_v(*xof_mode, *parameter, *seed) { unimplemented!() }
 // ---- IdpfValue for a field element (blanket impl; Kani harness idpf_value_select) --------------------------------------------------------
 pub open spec fn neg_if(c: bool, x: Fe) -> Fe { if c { fe_mk(-fe_v(x)) } else { x } }
 impl Fe {
@@ -106,31 +106,31 @@ pub open spec fn ssel(c: bool, a: Seed16, b: Seed16) -> Seed16 { if c { b } else
 pub open spec fn cxor(a: Seed16, b: Seed16, c: bool) -> Seed16 { if c { sxor(a, b) } else { a } }
 pub struct GenOut { pub cw_seed: Seed16, pub cw_t0: bool, pub cw_t1: bool, pub cw_v: Fe, pub k0: Seed16, pub k1: Seed16, pub t0: bool, pub t1: bool }
 // key generation at one level: parties' keys k0/k1 and control bits t0/t1, input bit a, programmed value beta
-pub open spec fn gen_level(k0: Seed16, k1: Seed16, t0: bool, t1: bool, a: bool, beta: Fe) -> GenOut {
+pub open spec fn gen_level(xm: XofMode, cm: XofMode, vp: ValueParam, k0: Seed16, k1: Seed16, t0: bool, t1: bool, a: bool, beta: Fe) -> GenOut {
     let lose = !a;
-    let cw_seed = sxor(ssel(lose, ext_s(k0, 0), ext_s(k0, 1)), ssel(lose, ext_s(k1, 0), ext_s(k1, 1)));
-    let cw_t0 = ((ext_t(k0, 0) != ext_t(k1, 0)) != a) != true;
-    let cw_t1 = (ext_t(k0, 1) != ext_t(k1, 1)) != a;
+    let cw_seed = sxor(ssel(lose, ext_s(xm, k0, 0), ext_s(xm, k0, 1)), ssel(lose, ext_s(xm, k1, 0), ext_s(xm, k1, 1)));
+    let cw_t0 = ((ext_t(xm, k0, 0) != ext_t(xm, k1, 0)) != a) != true;
+    let cw_t1 = (ext_t(xm, k0, 1) != ext_t(xm, k1, 1)) != a;
     let cw_t_keep = bsel(a, cw_t0, cw_t1);
-    let nt0 = bsel(a, ext_t(k0, 0), ext_t(k0, 1)) != (cw_t_keep && t0);
-    let nt1 = bsel(a, ext_t(k1, 0), ext_t(k1, 1)) != (cw_t_keep && t1);
-    let sc0 = cxor(ssel(a, ext_s(k0, 0), ext_s(k0, 1)), cw_seed, t0);
-    let sc1 = cxor(ssel(a, ext_s(k1, 0), ext_s(k1, 1)), cw_seed, t1);
-    let v = fe_mk(fe_v(fe_mk(fe_v(beta) - fe_v(conv_v(sc0)))) + fe_v(conv_v(sc1)));
-    GenOut { cw_seed, cw_t0, cw_t1, cw_v: neg_if(nt1, v), k0: conv_k(sc0), k1: conv_k(sc1), t0: nt0, t1: nt1 }
+    let nt0 = bsel(a, ext_t(xm, k0, 0), ext_t(xm, k0, 1)) != (cw_t_keep && t0);
+    let nt1 = bsel(a, ext_t(xm, k1, 0), ext_t(xm, k1, 1)) != (cw_t_keep && t1);
+    let sc0 = cxor(ssel(a, ext_s(xm, k0, 0), ext_s(xm, k0, 1)), cw_seed, t0);
+    let sc1 = cxor(ssel(a, ext_s(xm, k1, 0), ext_s(xm, k1, 1)), cw_seed, t1);
+    let v = fe_mk(fe_v(fe_mk(fe_v(beta) - fe_v(conv_v(cm, vp, sc0)))) + fe_v(conv_v(cm, vp, sc1)));
+    GenOut { cw_seed, cw_t0, cw_t1, cw_v: neg_if(nt1, v), k0: conv_k(cm, vp, sc0), k1: conv_k(cm, vp, sc1), t0: nt0, t1: nt1 }
 }
 pub struct EvalOut { pub key: Seed16, pub t: bool, pub out: Fe }
 // evaluation of one party at one level: its key and control bit, the public correction word, the child e to descend to
-pub open spec fn eval_level(is_leader: bool, key: Seed16, t: bool, cw_seed: Seed16, cw_t0: bool, cw_t1: bool, cw_v: Fe, e: bool) -> EvalOut {
-    let s0 = cxor(ext_s(key, 0), cw_seed, t);
-    let s1 = cxor(ext_s(key, 1), cw_seed, t);
-    let c0 = ext_t(key, 0) != (cw_t0 && t);
-    let c1 = ext_t(key, 1) != (cw_t1 && t);
+pub open spec fn eval_level(xm: XofMode, cm: XofMode, vp: ValueParam, is_leader: bool, key: Seed16, t: bool, cw_seed: Seed16, cw_t0: bool, cw_t1: bool, cw_v: Fe, e: bool) -> EvalOut {
+    let s0 = cxor(ext_s(xm, key, 0), cw_seed, t);
+    let s1 = cxor(ext_s(xm, key, 1), cw_seed, t);
+    let c0 = ext_t(xm, key, 0) != (cw_t0 && t);
+    let c1 = ext_t(xm, key, 1) != (cw_t1 && t);
     let sc = ssel(e, s0, s1);
     let nt = bsel(e, c0, c1);
-    let el = conv_v(sc);
+    let el = conv_v(cm, vp, sc);
     let o = fe_mk(fe_v(el) + fe_v(if nt { cw_v } else { fe_mk(0) }));
-    EvalOut { key: conv_k(sc), t: nt, out: neg_if(!is_leader, o) }
+    EvalOut { key: conv_k(cm, vp, sc), t: nt, out: neg_if(!is_leader, o) }
 }
 '''
 
@@ -140,20 +140,20 @@ proof fn lemma_fe_sum(a: Fe, b: Fe, c: Fe, pos: bool)
     // (a + [c or 0 per party]) - (b + ...) arithmetic, as congruences; used by both cases below
     ensures true
 { }
-proof fn theorem_level(k0: Seed16, k1: Seed16, t0: bool, t1: bool, a: bool, beta: Fe, e: bool)
+proof fn theorem_level(xm: XofMode, cm: XofMode, vp: ValueParam, k0: Seed16, k1: Seed16, t0: bool, t1: bool, a: bool, beta: Fe, e: bool)
     ensures
         // ON the path: control bits differ
         t0 != t1 ==> ({
-            let g = gen_level(k0, k1, t0, t1, a, beta);
-            let l = eval_level(true, k0, t0, g.cw_seed, g.cw_t0, g.cw_t1, g.cw_v, e);
-            let h = eval_level(false, k1, t1, g.cw_seed, g.cw_t0, g.cw_t1, g.cw_v, e);
+            let g = gen_level(xm, cm, vp, k0, k1, t0, t1, a, beta);
+            let l = eval_level(xm, cm, vp, true, k0, t0, g.cw_seed, g.cw_t0, g.cw_t1, g.cw_v, e);
+            let h = eval_level(xm, cm, vp, false, k1, t1, g.cw_seed, g.cw_t0, g.cw_t1, g.cw_v, e);
             &&& e == a ==> l.key == g.k0 && h.key == g.k1 && l.t == g.t0 && h.t == g.t1 && l.t != h.t && cong(fe_v(l.out) + fe_v(h.out), fe_v(beta))
             &&& e != a ==> l.key == h.key && l.t == h.t && cong(fe_v(l.out) + fe_v(h.out), 0)
         }),
         // OFF the path: equal keys and control bits, ANY correction word
         forall|cs: Seed16, c0: bool, c1: bool, cv: Fe| k0 == k1 && t0 == t1 ==> ({
-            let l = #[trigger] eval_level(true, k0, t0, cs, c0, c1, cv, e);
-            let h = eval_level(false, k1, t1, cs, c0, c1, cv, e);
+            let l = #[trigger] eval_level(xm, cm, vp, true, k0, t0, cs, c0, c1, cv, e);
+            let h = eval_level(xm, cm, vp, false, k1, t1, cs, c0, c1, cv, e);
             l.key == h.key && l.t == h.t && cong(fe_v(l.out) + fe_v(h.out), 0)
         }),
 {
@@ -161,35 +161,35 @@ proof fn theorem_level(k0: Seed16, k1: Seed16, t0: bool, t1: bool, a: bool, beta
     lemma_cong_refl(0);
     // OFF the path: identical computations; x + (-x) == 0
     assert forall|cs: Seed16, c0: bool, c1: bool, cv: Fe| k0 == k1 && t0 == t1 implies ({
-            let l = #[trigger] eval_level(true, k0, t0, cs, c0, c1, cv, e);
-            let h = eval_level(false, k1, t1, cs, c0, c1, cv, e);
+            let l = #[trigger] eval_level(xm, cm, vp, true, k0, t0, cs, c0, c1, cv, e);
+            let h = eval_level(xm, cm, vp, false, k1, t1, cs, c0, c1, cv, e);
             l.key == h.key && l.t == h.t && cong(fe_v(l.out) + fe_v(h.out), 0)
         }) by {
-        let l = eval_level(true, k0, t0, cs, c0, c1, cv, e);
+        let l = eval_level(xm, cm, vp, true, k0, t0, cs, c0, c1, cv, e);
         lemma_neg_sum(l.out);
     }
     if t0 != t1 {
-        let g = gen_level(k0, k1, t0, t1, a, beta);
-        let l = eval_level(true, k0, t0, g.cw_seed, g.cw_t0, g.cw_t1, g.cw_v, e);
-        let h = eval_level(false, k1, t1, g.cw_seed, g.cw_t0, g.cw_t1, g.cw_v, e);
-        let sc0 = cxor(ssel(a, ext_s(k0, 0), ext_s(k0, 1)), g.cw_seed, t0);
-        let sc1 = cxor(ssel(a, ext_s(k1, 0), ext_s(k1, 1)), g.cw_seed, t1);
+        let g = gen_level(xm, cm, vp, k0, k1, t0, t1, a, beta);
+        let l = eval_level(xm, cm, vp, true, k0, t0, g.cw_seed, g.cw_t0, g.cw_t1, g.cw_v, e);
+        let h = eval_level(xm, cm, vp, false, k1, t1, g.cw_seed, g.cw_t0, g.cw_t1, g.cw_v, e);
+        let sc0 = cxor(ssel(a, ext_s(xm, k0, 0), ext_s(xm, k0, 1)), g.cw_seed, t0);
+        let sc1 = cxor(ssel(a, ext_s(xm, k1, 0), ext_s(xm, k1, 1)), g.cw_seed, t1);
         if e == a {
             // the corrected seeds are the ones key generation converted
             assert(l.key == g.k0 && h.key == g.k1);
             assert(l.t == g.t0 && h.t == g.t1);
             assert(l.t != h.t);
-            lemma_on_path_sum(beta, conv_v(sc0), conv_v(sc1), g.t0, g.t1);
+            lemma_on_path_sum(beta, conv_v(cm, vp, sc0), conv_v(cm, vp, sc1), g.t0, g.t1);
         } else {
             // leaving the path: the seed correction makes the two keys equal, the bit correction makes the control bits equal
             let i: int = if e { 1 } else { 0 };
-            let x = ext_s(k0, i); let y = ext_s(k1, i);
+            let x = ext_s(xm, k0, i); let y = ext_s(xm, k1, i);
             axiom_sxor(x, y, x); axiom_sxor(y, x, y);
             assert(g.cw_seed == sxor(x, y));
-            assert(ssel(e, cxor(ext_s(k0, 0), g.cw_seed, t0), cxor(ext_s(k0, 1), g.cw_seed, t0)) == ssel(e, cxor(ext_s(k1, 0), g.cw_seed, t1), cxor(ext_s(k1, 1), g.cw_seed, t1)));
+            assert(ssel(e, cxor(ext_s(xm, k0, 0), g.cw_seed, t0), cxor(ext_s(xm, k0, 1), g.cw_seed, t0)) == ssel(e, cxor(ext_s(xm, k1, 0), g.cw_seed, t1), cxor(ext_s(xm, k1, 1), g.cw_seed, t1)));
             assert(l.key == h.key);
             assert(l.t == h.t);
-            let lo = fe_mk(fe_v(conv_v(ssel(e, cxor(ext_s(k0, 0), g.cw_seed, t0), cxor(ext_s(k0, 1), g.cw_seed, t0)))) + fe_v(if l.t { g.cw_v } else { fe_mk(0) }));
+            let lo = fe_mk(fe_v(conv_v(cm, vp, ssel(e, cxor(ext_s(xm, k0, 0), g.cw_seed, t0), cxor(ext_s(xm, k0, 1), g.cw_seed, t0)))) + fe_v(if l.t { g.cw_v } else { fe_mk(0) }));
             lemma_neg_sum(lo);
         }
     }
@@ -264,7 +264,7 @@ def unit():
            rewrites=COMMON + [(r'value: V,', 'value: Fe,', 1)],
            sig='''
 ensures
-    ({ let g = gen_level(old(keys)[0], old(keys)[1], old(control_bits)[0].0, old(control_bits)[1].0, input_bit.0, value);
+    ({ let g = gen_level(*extend_mode, *convert_mode, *parameter, old(keys)[0], old(keys)[1], old(control_bits)[0].0, old(control_bits)[1].0, input_bit.0, value);
        &&& r.seed == g.cw_seed && r.control_bits[0].0 == g.cw_t0 && r.control_bits[1].0 == g.cw_t1 && r.value == g.cw_v
        &&& final(keys)[0] == g.k0 && final(keys)[1] == g.k1 && final(control_bits)[0].0 == g.t0 && final(control_bits)[1].0 == g.t1 }),
 ''')
@@ -274,7 +274,7 @@ ensures
                               (r'Choice::from\(\(!is_leader\) as u8\)', 'Choice::from_bool(!is_leader)', 1)],
            sig='''
 ensures
-    ({ let ev = eval_level(is_leader, *old(key), old(control_bit).0, correction_word.seed, correction_word.control_bits[0].0, correction_word.control_bits[1].0, correction_word.value, input_bit.0);
+    ({ let ev = eval_level(*extend_mode, *convert_mode, *parameter, is_leader, *old(key), old(control_bit).0, correction_word.seed, correction_word.control_bits[0].0, correction_word.control_bits[1].0, correction_word.value, input_bit.0);
        r == ev.out && *final(key) == ev.key && final(control_bit).0 == ev.t }),
 ''', before=[('let mut out', 'broadcast use axiom_fe_range;')])
     u.raw(THEOREM, 'level-theorem')
